@@ -666,7 +666,7 @@ pub fn flag_names(f: u32) -> Vec<&'static str> {
         v.push("accepted a worse proposal at temperature zero (first loop)");
     }
     if f & F_WORSE_ACCEPTED_ZERO_T_LATER != 0 {
-        v.push("accepted a worse proposal after starting at temperature zero (later loop)");
+        v.push("accepted a worse proposal in a later loop that runs at temperature zero");
     }
     if f & F_METROPOLIS_FIRST_LOOP != 0 {
         v.push("decision contradicts u < exp(-d/kT) at the starting temperature");
@@ -746,6 +746,10 @@ fn expected(cfg: &Cfg, t: usize, a: Option<f64>, cur: f64, thr: Option<f64>) -> 
                         }
                     }
                 }
+            } else if !first && cfg.kt_start > 0. && (cfg.kt_ratio == Some(1.) || (cfg.kt_ratio.is_none() && cfg.kt_finish == Some(0.))) {
+                // a cooling factor of exactly zero (all of the temperature taken away, or a
+                // finishing temperature of zero): every loop after the first runs at zero
+                (Some(false), F_WORSE_ACCEPTED_ZERO_T_LATER)
             } else {
                 (None, 0)
             }
